@@ -71,6 +71,11 @@ def plan(prop, tier):
         for fam in ["border", "full", "two", "layer"]:
             J.append((fam, "random", ["scenarios=%d" % (25 if q else 120), "runs=%d" % (12 if q else 30), "threads=2", "opsper=2"]))
             J.append((fam, "pre1", ["scenarios=%d" % (8 if q else 40), "threads=2", "opsper=2"]))
+    elif prop == "C12c":   # put report under concurrency: puts racing on the same border / on a border that splits / on a layer root
+        for fam in ["border", "full", "two", "layer", "layerfull"]:
+            J.append((fam, "random", ["scenarios=%d" % (20 if q else 100), "runs=%d" % (12 if q else 30), "threads=3", "opsper=2", "rep=1", "pputs=80"]))
+            J.append((fam, "pre1", ["scenarios=%d" % (6 if q else 30), "threads=2", "opsper=2", "rep=1", "pputs=85"]))
+            J.append((fam, "pct", ["scenarios=%d" % (10 if q else 50), "runs=%d" % (12 if q else 30), "threads=3", "opsper=2", "rep=1", "pputs=70"]))
     elif prop == "C10":
         for fam in FAMS + EXTRA.get(prop, []):
             big = fam == "three"
@@ -79,9 +84,9 @@ def plan(prop, tier):
     return ["seed=%d" % s], J
 
 
-ON = {"C13c": ["LIN", "QUIES"], "C15c": ["LIN"], "C19c": ["LIN", "SCAN"], "C01": ["LIN"], "C04": ["LIN", "SCAN"], "C06": ["LIN", "SCAN", "NV"], "C08c": ["LIN", "QUIES"], "C09": ["QUIES"], "C10": ["LIN", "SCAN", "NV"]}
+ON = {"C12c": ["REP"], "C13c": ["LIN", "QUIES"], "C15c": ["LIN"], "C19c": ["LIN", "SCAN"], "C01": ["LIN"], "C04": ["LIN", "SCAN"], "C06": ["LIN", "SCAN", "NV"], "C08c": ["LIN", "QUIES"], "C09": ["QUIES"], "C10": ["LIN", "SCAN", "NV"]}
 # which failure kinds count for which property (others are somebody else's property and are only noted)
-MINE = {"C13c": {"not-linearizable", "quiescent-structure"}, "C15c": {"not-linearizable"}, "C19c": {"not-linearizable", "scan-shape"}, "C01": {"not-linearizable"}, "C04": {"not-linearizable", "scan-shape"}, "C06": {"scan-nv-misses-insert", "scan-nv-empty"},
+MINE = {"C12c": {"put-report-concurrent"}, "C13c": {"not-linearizable", "quiescent-structure"}, "C15c": {"not-linearizable"}, "C19c": {"not-linearizable", "scan-shape"}, "C01": {"not-linearizable"}, "C04": {"not-linearizable", "scan-shape"}, "C06": {"scan-nv-misses-insert", "scan-nv-empty"},
         "C08c": {"quiescent-structure", "not-linearizable"}, "C09": {"quiescent-structure"}, "C10": {"not-linearizable", "scan-shape", "scan-nv-misses-insert"}}
 
 
